@@ -10,6 +10,8 @@ mod html_filter_body;
 mod text_filter_body;
 
 pub use buffer::Buffer;
+#[cfg(kani)]
+pub use error::FilterBodyError as VerifFilterBodyError;
 #[cfg(feature = "compress")]
 pub use encoding::SupportedEncoding;
 pub use filter_body::FilterBodyAction;
